@@ -119,6 +119,15 @@ def pairwiseDisjoint : List (List Nat) → Bool
   | [] => true
   | l :: ls => ls.all (fun l' => l.all (fun x => !l'.contains x)) && pairwiseDisjoint ls
 
+/-- executable `InjT`: non-empty names, pairwise different along the list (repeated ids allowed) -/
+def injB (f : Nat → Option String) (L : List Nat) : Bool :=
+  L.all (fun a => truthy (f a)) && L.all (fun a => L.all (fun b => a == b || f a != f b))
+
+/-- top-level graphs share no node object -/
+def nodeDisjTops : List Top → Bool
+  | [] => true
+  | t :: ts => ts.all (fun t' => (allNodes t.body).all (fun n => !(allNodes t'.body).contains n)) && nodeDisjTops ts
+
 def handle : Handler := fun m j =>
   match m with
   | "names.hist" => some do
@@ -150,7 +159,11 @@ def handle : Handler := fun m j =>
         ("scoped", Json.bool hScoped), ("closed", Json.bool hClosed), ("nodup", Json.bool hNodup),
         ("disjoint", Json.bool (disjTops w nv tops)),
         ("wellOwned", Json.bool (tops.all (fun t => wellOwnedB w.inits t.tr []))),
-        ("ownedDisjoint", Json.bool (tops.all (fun t => pairwiseDisjoint (ownedLists w.inits t.tr))))])
+        ("ownedDisjoint", Json.bool (tops.all (fun t => pairwiseDisjoint (ownedLists w.inits t.tr)))),
+        -- hypotheses and conclusion of C15_illscoped_nodes (no scoping rule)
+        ("nodeDisjoint", Json.bool (nodeDisjTops tops)), ("initsOk", Json.bool (initsOkB w nv ng)),
+        ("nodesPost", Json.bool (!r.2.2 && initsOkB r.1 nv ng
+          && tops.all (fun t => (allNodeScopes t.tr).all (injB r.1.nname))))])
   | "names.fixx" => some do
       -- NameFixPass with a generator (`gen`: "simple" | {"const": s} | {"v": [[id, answer]..], "n": [[id, answer]..]},
       -- a table falls back to the simple generator) and backing tensors
@@ -162,28 +175,43 @@ def handle : Handler := fun m j =>
       let tw : TWorld := { toWorld := w, constOf := fun i => co.getD i none, tname := fun t => tn.getD t none,
                            frozen := fun t => fz.contains t }
       let gj := (j.getObjVal? "gen").toOption.getD (Json.str "simple")
-      let gen : NameGen ← match gj with
-        | .str _ => pure simpleGen
+      -- the generator and whether it never answers the empty string (`NameGen.NonEmpty`, decided on its description)
+      let (gen, genNE) : NameGen × Bool ← match gj with
+        | .str _ => pure (simpleGen, true)
         | gj => match gj.getObjVal? "const" with
           | .ok c => do
             let c ← c.getStr?
-            pure { v := fun _ _ => c, n := fun _ _ => c }
+            pure ({ v := fun _ _ => c, n := fun _ _ => c }, c != "")
           | .error _ => do
             let tv ← (← getArr gj "v").mapM parsePair
             let tnn ← (← getArr gj "n").mapM parsePair
-            pure { v := fun i nm => (tv.lookup i).getD (simpleGen.v i nm),
-                   n := fun i nm => (tnn.lookup i).getD (simpleGen.n i nm) }
+            pure ({ v := fun i nm => (tv.lookup i).getD (simpleGen.v i nm),
+                    n := fun i nm => (tnn.lookup i).getD (simpleGen.n i nm) },
+                  tv.all (fun e => e.2 != "") && tnn.all (fun e => e.2 != ""))
       let r := fixModelX gen tw [] tops
       let r0 := fixModel w tops
       let plainEq := (List.range nv).all (fun i => r.w.vname i == r0.1.vname i)
         && (List.range nn).all (fun i => r.w.nname i == r0.1.nname i)
         && (List.range ng).all (fun g => r.w.dicts g == r0.1.dicts g)
         && r.modified == r0.2.1 && r.raised == r0.2.2
+      -- hypotheses of C15_gen_post evaluated on this input, and its conclusion on the model's output
+      let passWF := initsOkB w nv ng && tops.all (fun t => scopedB w.inits t.tr [] []) && tops.all (fun t => closedB w.initOf t)
+        && tops.all (fun t => decide (allNodes t.body).Nodup) && disjTops w nv tops
+      let noFz := (List.range nv).all (fun v => match tw.constOf v with | some t => !tw.frozen t | none => true)
+      let postOk := !r.raised && initsOkB r.w.toWorld nv ng
+        && tops.all (fun t => (allScopes w.inits t.tr []).all (injB r.w.vname) && (allNodeScopes t.tr).all (injB r.w.nname))
+      -- conclusion of C15_gen_untouched
+      let untouched := (List.range nv).all (fun v => r.glog.contains (false, v) || r.w.vname v == w.vname v)
+        && (List.range nn).all (fun n => r.glog.contains (true, n) || r.w.nname n == w.nname n)
+        && (List.range tn.length).all (fun t =>
+              (List.range nv).any (fun v => tw.constOf v == some t && r.glog.contains (false, v)) || r.w.tname t == tw.tname t)
       return obj (worldJ r.w.toWorld nv nn ng ++ [("modified", Json.bool r.modified), ("raised", Json.bool r.raised),
         ("tnames", Json.arr ((List.range tn.length).map fun t => optStrJ (r.w.tname t)).toArray),
         ("glog", Json.arr (r.glog.reverse.map fun e => Json.arr #[Json.bool e.1, toJson e.2]).toArray),
         ("initsOk", Json.bool (initsOkB w nv ng)), ("initsOkAfter", Json.bool (initsOkB r.w.toWorld nv ng)),
-        ("plainEq", Json.bool plainEq)])
+        ("plainEq", Json.bool plainEq), ("genNonEmpty", Json.bool genNE), ("passWF", Json.bool passWF),
+        ("noFz", Json.bool noFz), ("postOk", Json.bool postOk), ("untouched", Json.bool untouched),
+        ("closed", Json.bool (tops.all (fun t => closedB w.initOf t)))])
   | "names.rename" => some do
       let (w, nv, nn, ng) ← parseWorld j
       let pairs ← (← getArr j "pairs").mapM parsePair
